@@ -4,6 +4,7 @@ package cmd
 // /verif/DESIGN.md section 6 (not checks; see lib_demo_test.go).
 
 import (
+	"flag"
 	"io/ioutil"
 	"math/rand"
 	"net/http"
@@ -224,5 +225,84 @@ func TestDemoD14GenerateNewestCoarseSlotCovered(t *testing.T) {
 		if n == 60 && last.Value != sum {
 			t.Errorf("now=minute+%d: the newest coarser slot is covered by 60 finer slots summing to %s but holds %s", now-m, sum, last.Value)
 		}
+	}
+}
+
+// D15 (window-check rule of C08/C09/C10/C18): the commands read Until == 0 as
+// "until now", but Parse refused every -from given without -until because it
+// compared From with the still-zero Until (fixed by 0fa9054; passes on the
+// repaired tree).
+func TestDemoD15FromWithoutUntil(t *testing.T) {
+	dir := demoDir(t)
+	for name, c := range map[string]Command{
+		"copy":     &CopyCommand{},
+		"diff":     &DiffCommand{},
+		"sum":      &SumCommand{},
+		"view":     &ViewCommand{},
+		"view-raw": &ViewRawCommand{},
+	} {
+		fs := flag.NewFlagSet(name, flag.ContinueOnError)
+		args := []string{"-src-base", dir, "-src", "a.wsp", "-from", "2020-01-01T00:00:00Z"}
+		switch name {
+		case "copy", "diff":
+			args = append(args, "-dest-base", dir)
+		case "sum":
+			args = []string{"-src-base", dir, "-item", "a", "-src", "*.wsp", "-from", "2020-01-01T00:00:00Z"}
+		}
+		if name == "copy" {
+			args = append(args, "-agg-method", "sum", "-retentions", "1m:1h")
+		}
+		if err := c.Parse(fs, args); err != nil {
+			t.Errorf("%s -from T (no -until): Parse refuses the window: %v", name, err)
+		}
+	}
+}
+
+// D16 (C11.R3 range-check, C16): sum-diff compared the sum with the destination
+// without the window/step agreement test its siblings (diff, copy, sum-copy)
+// make first. A /sum response with the destination's layout but a longer series
+// made printDiff index past the destination's list (fixed; passes on the
+// repaired tree, where sum-diff returns an error instead).
+func TestDemoD16SumDiffSeriesLengthMismatch(t *testing.T) {
+	dir := demoDir(t)
+	rets, err := whispertool.ParseArchiveInfoList("1s:10s")
+	if err != nil {
+		t.Fatal(err)
+	}
+	if err := os.MkdirAll(filepath.Join(dir, "it"), 0755); err != nil {
+		t.Fatal(err)
+	}
+	db, err := whispertool.Create(filepath.Join(dir, "it", "sum.wsp"), rets, whispertool.Sum, 0)
+	if err != nil {
+		t.Fatal(err)
+	}
+	if err := db.Sync(); err != nil {
+		t.Fatal(err)
+	}
+	h := db.Header()
+	db.Close()
+	mux := http.NewServeMux()
+	mux.HandleFunc("/sum", func(w http.ResponseWriter, r *http.Request) {
+		// the destination's layout, a series of 100 values
+		buf := h.AppendTo(nil)
+		vals := make([]whispertool.Value, 100)
+		for i := range vals {
+			vals[i] = whispertool.Value(i)
+		}
+		ts := whispertool.NewTimeSeries(1000, 1100, whispertool.Second, vals)
+		buf = ts.AppendTo(buf)
+		w.Write(buf)
+	})
+	s := httptest.NewServer(mux)
+	defer s.Close()
+	c := &SumDiffCommand{SrcBase: s.URL, DestBase: dir, ItemPattern: "it", SrcPattern: "*.wsp", DestRelPath: "sum.wsp", ArchiveID: ArchiveIDAll, TextOut: ""}
+	defer func() {
+		if p := recover(); p != nil {
+			t.Errorf("sum-diff panicked on a /sum response whose series is longer than the destination's: %v", p)
+		}
+	}()
+	err = c.sumDiffItem("it", ioutil.Discard)
+	if err == nil || err == ErrDiffFound {
+		t.Logf("sum-diff returned %v", err)
 	}
 }
